@@ -68,6 +68,12 @@ def gen_grammars(shard: dict):
             label, rules, inputs = G.stack_dig_case(idx)
             EXTRA_INPUTS[label] = inputs
             yield label, rules
+    elif src == "scale":
+        for idx in shard["indices"]:
+            c = G.scale_case(idx)
+            if c is not None:
+                EXTRA_INPUTS[c[0]] = c[2]
+                yield c[0], c[1]
     elif src == "stackswap":
         for idx in shard["indices"]:
             label, rules, inputs = G.stack_swap_case(idx)
@@ -99,6 +105,9 @@ def gen_grammars(shard: dict):
 
 
 EXTRA_INPUTS: dict[str, list[str]] = {}
+# rule nesting beyond this is an abstention ("nesting within the interpreter's recursion budget"): the workers run with a
+# recursion limit of 20 000 frames, the interpreter needs about a dozen frames per rule level
+MAX_RULE_DEPTH = 350
 
 
 class GCase:
@@ -512,6 +521,9 @@ def worker(shard: dict) -> dict:  # noqa: PLR0912, PLR0915
                     acc.count(f"build_failed.{m}.{err[0]}.{err[1]}")
                     if err[0] in ("generate", "import") and "c01" in judges:
                         rep.violation("c01", ("build", m, err[1]), gc, "", "", 0, m, "generate() output compiles and imports", list(err))
+                    elif err[0] == "load" and m in ("O", "GO") and md.parser("I") is not None and "c02" in judges:
+                        # the same text loads with optimizer=None: the default optimizer refused or crashed
+                        rep.violation("c02", ("default-optimizer-load", err[1]), gc, "", "", 0, m, "loads like optimizer=None does", list(err))
                     elif err[0] == "load":
                         # the front end rejected (or crashed on) a printed grammar: that is C10/C11's business
                         acc.count("abstain.front_end_rejected_grammar")
@@ -592,9 +604,13 @@ def worker(shard: dict) -> dict:  # noqa: PLR0912, PLR0915
                     want = None
                     acc.count("cases_judged_without_reference_result")
                 steps, depth = gc.refev[(rule, inp, st)]
-                if depth > 60:
+                if depth > MAX_RULE_DEPTH:
                     acc.count("abstain.deep_input")
                     continue
+                if depth > 60:
+                    acc.count("inputs_with_rule_depth_over_60")
+                if depth >= 100:
+                    acc.count("inputs_with_rule_depth_100_or_more")
                 monitor.set_budget(1000 * steps + 100_000)
                 results = {}
                 for m, o in objs.items():
@@ -695,11 +711,15 @@ def worker(shard: dict) -> dict:  # noqa: PLR0912, PLR0915
                                 rep.violation("c16", (m, f"{rk[0]}-vs-{exp[0]}"), gc, rule, inp, k, m, brief(exp), brief(rk), {"suffix_result": brief(rs)})
                             if k:
                                 # characters before start_pos are never consulted
-                                other = "".join("q" if c != "q" else "r" for c in inp[:k]) + inp[k:]
-                                ro = run(o, rule, other, k)
-                                acc.count("c16.prefix_variations")
-                                if ro != rk:
-                                    rep.violation("c16", (m, "prefix-consulted"), gc, rule, inp, k, m, brief(rk), brief(ro), {"varied_text": other})
+                                # (an ASCII replacement, a non-ASCII one, and one that is a line break: whole-text properties
+                                # such as str.isascii() or the number of lines must not leak into the result either)
+                                for vi, fill in enumerate(("q", "\u00e9", "\n")):
+                                    other = "".join(fill if c != fill else "r" for c in inp[:k]) + inp[k:]
+                                    ro = run(o, rule, other, k)
+                                    acc.count("c16.prefix_variations")
+                                    if ro != rk:
+                                        rep.violation("c16", (m, "prefix-consulted", str(vi)), gc, rule, inp, k, m, brief(rk), brief(ro), {"varied_text": other})
+                                        break
                 if "c16" in judges and st == 0 and inp:
                     c16_budget -= 1
                 # ---------- C01: generated == interpreter on the same Parser
